@@ -28,6 +28,9 @@ func runC04(cfg *Config) *Report {
 	cf := newCaseFile("From Coq Require Import List NArith ZArith.\nFrom GMK Require Import Term Unify Reflect GCore CorrBase Corr01 Corr02 Corr04.", "case04", "check04")
 	r := newRand(cfg.Seed)
 	for i := 0; i < cfg.N; i++ {
+		if i%25 == 0 && (cfg.Only < 0 || cfg.Only == i) {
+			sharedStateConcurrent(rep, i, newRand(cfg.Seed*7919+int64(i)))
+		}
 		nv := 1 + r.Intn(6)
 		sorts := make([]string, nv)
 		for k := range sorts {
